@@ -2,9 +2,33 @@ SPEC = dict(
     props_file="C04",
     legs=[dict(family="theta", oracles=["kmv_ok", "layout_ok"], profiles=["debug", "release"],
                mask=[1, 2, 3, 4, 5, 6, 7, 9, 10], n_quick=110, n_thorough=1500, panic_is_violation=True)],
-    level_text="TBD",
-    level_note="TBD",
-    technique="Coq proof by invariant over operation histories + differential correspondence model vs crate",
-    trusted=[],
-    assumptions=[],
+    level_text="Theorems (Props/C04.v) over an executable model of theta/hash_table.rs + ThetaSketch (slot array, odd-stride open "
+               "addressing, resize, rebuild, trim, reset, compact) that takes the 63-bit hash as input: for all lg_k 5..26, all four "
+               "resize factors, every sampling probability and every history of update(any hash)/trim/reset/compact, the retained "
+               "entries are exactly the distinct offered hashes in (0, theta) (no duplicates, count field exact); theta never "
+               "increases and is below its initial value only after more than k qualifying distinct hashes; while theta is initial "
+               "the sketch holds every qualifying hash and for p = 1 the binary64 estimate equals the count exactly (x / 1.0 = x via "
+               "Flocq); trim leaves exactly the k smallest with theta = the (k+1)-th; reset = fresh state; compact(ordered) has the "
+               "same entries, count, emptiness, bit-identical estimate, theta (when non-empty), is strictly sorted whenever it says "
+               "ordered; no history reaches a panic site because find_in_entries always succeeds (open-addressing invariant, "
+               "n <= capacity < size); n <= 15/16 * 2^(lg_k+1). The order in which rebuild re-inserts the k smallest entries "
+               "(unspecified by select_nth_unstable) is a parameter: every theorem holds for every order. Tie: the model must reproduce "
+               "every observation of the crate (n, theta, lg_cur, sorted entries, flags, estimates bit for bit, compact's fields, "
+               "serialized bytes, raw slot array before the first rebuild) on generated histories in debug and release builds, and an "
+               "independent exact-set oracle (plus a probe-path oracle on the crate's raw slot array) judges the crate's observations.",
+    level_note="Trusted: Coq kernel, translator (constants and the literals of get_stride/hash_and_screen), harness/driver, pyref "
+               "MurmurHash (checked in C16). After a rebuild the crate's slot ORDER depends on std's select_nth_unstable: it is not "
+               "mirrored (the model re-inserts ascending; sets are compared, and the crate's own layout is judged by the probe-path "
+               "oracle); the theorems cover every order. The binomial confidence bounds (ln/sqrt loops) are not modelled here (C01). "
+               "The model is the repaired code (is_empty is a flag cleared by the first offered value: /repo fix f99d068).",
+    technique="Coq proof by invariant over operation histories (open-addressing layout invariant + KMV set invariant, finite "
+              "binary64 sweep for the capacity expression, Flocq for the exact-mode estimate) + differential correspondence model vs "
+              "crate with an independent set oracle",
+    trusted=["hashes are inputs of the model: items are hashed by the crate, the reference hash (tools/pyref.py MurmurHash3, "
+             "cross-checked in C16) is handed to the model; crafted hashes enter through 16-byte MurmurHash pre-images (public "
+             "update) or the hook verif_insert_hash",
+             "std's select_nth_unstable/sort_unstable are taken to return a permutation with the documented partition/order property",
+             "u64/usize width: hashes offered through update() are 63-bit; the model works on unbounded N and never relies on wrap-around"],
+    assumptions=["lg_k in 5..=26 and a ResizeFactor of the enum (the builder asserts lg_k; sampling_probability in (0,1] is asserted "
+                 "by the builder but not needed by the theorems)"],
 )
